@@ -32,6 +32,10 @@ structure Case where
   hasMeta : Bool
   big : Bool
   keymode : String
+  /-- the implementation answered `BadDigest` to a `md5-bad` request: it verifies Content-MD5 (the pinned tree ignores the
+      header). For put_object the model then takes the comparison step as failing — a verification placed before `done()`
+      agrees with it, one placed after the rename does not (and is a SPECFAIL `error-after-rename:content-md5`) -/
+  md5Verified : Bool := false
 
 /-- the key has a parent of its own (`nd/obj`, `pf/obj`): only for objects, not for part files -/
 def Case.deepKey (c : Case) : Bool := c.keymode ≠ "plain" && c.op ≠ "upload_part"
@@ -44,7 +48,7 @@ def Case.cfg (c : Case) : Cfg :=
       match f with
       | .ok b => Part.present b (i + 1 = n || c.big)
       | .err => Part.missing
-    checksumsEqual := !c.fault.startsWith "cksum-bad"
+    checksumsEqual := !c.fault.startsWith "cksum-bad" && !(c.fault = "md5-bad" && c.md5Verified && c.op = "put_object")
     hasMeta := c.hasMeta
     mkdirsFails := c.keymode = "parentfile" && c.op ≠ "upload_part"
     renameFails := c.fault = "destdir"
@@ -153,7 +157,7 @@ def judge (fs : List String) : String :=
           | none => badline id
       else
         judgeSingle id { op := op, prev := prev = "present", frames := frs, fault := fault, hasMeta := hasmeta = "1",
-                         big := big = "1", keymode := keymode } code dest tmps mdata info predrop pends extra phase pdir
+                         big := big = "1", keymode := keymode, md5Verified := code = "BadDigest" } code dest tmps mdata info predrop pends extra phase pdir
   | [_comp, id, _, _, _, _, _, _, _, "|", "PANIC"] => specfail id "panic" "the real code panicked"
   | _ :: id :: _ => badline id
   | _ => badline "?"
